@@ -307,6 +307,8 @@ def make_record(spec, cls=None):
         for r in spec["refs"]:
             ref = Paper() if r.get("duck") else Reference()
             ref.title, ref.authors, ref.journal = r["title"], r["authors"], r["journal"]
+            if r.get("authors_list"):
+                ref.authors = [x.strip() for x in (r["authors"] + ", Coauthor B.").split(",")]     # "a big old string, or a list split by author"
             if r.get("span") is True:
                 ref.location = [FeatureLocation(0, len(spec["seq"]))]   # "bases 1 to N", as every parsed GenBank reference has
             elif r.get("span"):
@@ -353,6 +355,8 @@ def annotation_variety(*key):
     if r.random() < 0.45:
         return None
     out = {k: copy.deepcopy(v) for k, v in _ANNOTATIONS.items() if r.random() < 0.45}
+    if "comment" in out and r.random() < 0.5:
+        out["comment"] = ["kept in the freezer", "second shelf"]      # a comment held as a list of lines
     if "molecule_type" in out:
         # GenBank and EMBL/INSDC spellings of double-stranded plasmid DNA
         out["molecule_type"] = r.choice(["DNA", "ds-DNA", "genomic DNA", "other DNA", "unassigned DNA", "ds-DNA"])
